@@ -5,6 +5,7 @@ import (
 	"go/ast"
 	"go/token"
 	"go/types"
+	"sort"
 	"strings"
 )
 
@@ -18,6 +19,7 @@ func init() {
 			{ID: "C07-R3", Doc: "zero before decode", Run: c07r3},
 			{ID: "C07-R4", Doc: "decode errors are sticky, zero-row, never end-of-stream", Run: c07r4},
 			{ID: "C07-R5", Doc: "buffered remainder drained before next batch", Run: c07r5},
+			{ID: "C07-R6", Doc: "every batch is decoded into a frame of exactly the decoded length, which is validated", Run: c07r6},
 		},
 	})
 }
@@ -727,3 +729,126 @@ func c07r5(c *RC) {
 	})
 	c.Check(okBuf, rq+"|oversized-batch-buffered", pr.Pos(loop.Pos()), "a batch larger than the destination is no longer kept in the reader's buffer")
 }
+
+// c07r6: the frame handed to decode has exactly the batch length n just
+// decoded (a longer, reused buffer would deliver rows that were never
+// written), and n is rejected when negative before it sizes anything.
+func c07r6(c *RC) {
+	pr := c.P
+	r := c.MustFn("sliceio.(*decodingReader).Read")
+	if r == nil {
+		return
+	}
+	rq := r.QName()
+	fl := pr.Flow(r)
+	var lenDecode *ast.CallExpr
+	nVar := ""
+	for _, o := range wireOps(pr, r, false) {
+		if o.kind == "scalar:int" {
+			lenDecode = o.call
+			if u, ok := ast.Unparen(o.call.Args[0]).(*ast.UnaryExpr); ok {
+				nVar = expr(u.X)
+			}
+		}
+	}
+	if lenDecode == nil || nVar == "" {
+		c.Undecide("%s: batch length decode not found", rq)
+		return
+	}
+	sizedByN := func(e ast.Expr) bool {
+		call, ok := ast.Unparen(e).(*ast.CallExpr)
+		if !ok {
+			return false
+		}
+		switch r.Pkg.CalleeName(call) {
+		case "frame.Make":
+			return len(call.Args) == 3 && expr(call.Args[1]) == nVar
+		case "frame.Frame.Ensure":
+			return len(call.Args) == 1 && expr(call.Args[0]) == nVar
+		case "frame.Frame.Slice":
+			return len(call.Args) == 2 && expr(call.Args[0]) == "0" && expr(call.Args[1]) == nVar
+		}
+		return false
+	}
+	ndec := 0
+	bad := false
+	var trail []string
+	var badExpr string
+	negChecked := true
+	var negTrail []string
+	// state: "|"-joined sorted set of sized expressions, prefixed by "N" when n was range-checked
+	fl.Walk(fl.Entry(), "", nil, Visitor{
+		Enter: func(from, to *cfg2Block, x string, s *Step) (string, bool) {
+			be, ok := ast.Unparen(fl.edgeCond(from)).(*ast.BinaryExpr)
+			if !ok {
+				return x, false
+			}
+			nonneg := false
+			if expr(be.X) == nVar && expr(be.Y) == "0" {
+				nonneg = be.Op == token.LSS && from.Succs[1] == to || be.Op == token.GEQ && from.Succs[0] == to
+			}
+			if nonneg && !strings.Contains(x, "#nonneg") {
+				if x == "" {
+					return "#nonneg", false
+				}
+				return "#nonneg|" + x, false
+			}
+			return x, false
+		},
+		Node: func(n ast.Node, x string, s *Step) (string, bool) {
+			set := map[string]bool{}
+			for _, e := range strings.Split(x, "|") {
+				if e != "" {
+					set[e] = true
+				}
+			}
+			enc := func() string {
+				var l []string
+				for k := range set {
+					l = append(l, k)
+				}
+				sort.Strings(l)
+				return strings.Join(l, "|")
+			}
+			for _, call := range callsIn(n) {
+				if call == lenDecode {
+					set = map[string]bool{}
+				}
+				if r.Pkg.CalleeName(call) == "sliceio.(*decodingReader).decode" && len(call.Args) == 1 {
+					ndec++
+					a := call.Args[0]
+					if !(sizedByN(a) || set[expr(a)]) {
+						bad = true
+						badExpr = expr(a)
+						trail = s.Trail()
+					}
+					// n must be known non-negative here: facts carry the failed `n < 0` test
+					if !set["#nonneg"] {
+						negChecked = false
+						negTrail = s.Trail()
+					}
+				}
+			}
+			if a, ok := n.(*ast.AssignStmt); ok && len(a.Lhs) == len(a.Rhs) {
+				for i, l := range a.Lhs {
+					le := expr(l)
+					if le == nVar {
+						set = map[string]bool{}
+						continue
+					}
+					if sizedByN(a.Rhs[i]) || set[expr(a.Rhs[i])] {
+						set[le] = true
+					} else {
+						delete(set, le)
+					}
+				}
+			}
+			return enc(), false
+		}})
+	c.Floor("decode calls", ndec, 2)
+	c.Check(!bad, rq+"|decode-target-has-batch-length", pr.Pos(lenDecode.Pos()),
+		fmt.Sprintf("decode is handed %s, which on some path was not (re)sized to the decoded batch length %s: a reused, longer buffer delivers rows that were never written", badExpr, nVar), trail...)
+	c.Check(negChecked, rq+"|batch-length-validated", pr.Pos(lenDecode.Pos()),
+		"the decoded batch length sizes a frame without having been tested for < 0: a damaged length makes the reader panic in frame.Slice/Make instead of failing with an error", negTrail...)
+}
+
